@@ -570,3 +570,93 @@ Section HmacShape.
       now rewrite (decrypt_encrypt hkdf ctr sha3 keccak P ver ctr_inv (ser32 nk) [] salt iv d Ee (ser32_length nk)).
   Qed.
 End HmacShape.
+
+(** * concurrent first use: Key as ONE critical section, all schedules *)
+Lemma upd_Forall {A} (P : A -> Prop) f : forall (l : list A) i t,
+  nth_error l i = Some t -> Forall P l -> P (f t) -> Forall P (upd i f l).
+Proof.
+  induction l as [|x l IH]; intros [|i] t Hn HF Hp; cbn in *; try discriminate.
+  - injection Hn as ->. inversion HF; subst. now constructor.
+  - inversion HF; subst. constructor; [assumption | now apply (IH i t)].
+Qed.
+
+Lemma upd_created f : forall (l : list cthread) i t,
+  nth_error l i = Some t -> is_created t = false ->
+  length (filter is_created (upd i f l)) = (length (filter is_created l) + (if is_created (f t) then 1 else 0))%nat.
+Proof.
+  induction l as [|x l IH]; intros [|i] t Hn Hc; cbn [upd filter nth_error] in *; try discriminate.
+  - injection Hn as ->. rewrite Hc. destruct (is_created (f t)); cbn; lia.
+  - destruct (is_created x); cbn [length]; rewrite (IH i t Hn Hc); lia.
+Qed.
+
+Lemma none_not_created l : Forall (fun t => t_out t = None) l -> filter is_created l = [].
+Proof.
+  induction 1 as [|t l Ht _ IH]; [reflexivity|]. cbn. unfold is_created at 1. now rewrite Ht.
+Qed.
+
+Definition conc_inv (name : bytes) (st : mem * list cthread) : Prop :=
+  match mlookup (fst st) name with
+  | None => Forall (fun t => t_out t = None) (snd st)
+  | Some (k, pw0) =>
+      length (filter is_created (snd st)) = 1%nat /\
+      Forall (fun t => t_out t = None \/ agrees k pw0 t = true) (snd st)
+  end.
+
+Lemma conc_inv_step name st tid : conc_inv name st -> conc_inv name (conc_step_atomic name st tid).
+Proof.
+  destruct st as [m ths]. unfold conc_step_atomic, conc_inv. cbn [fst snd]. intros HI.
+  destruct (nth_error ths tid) as [t|] eqn:En; [|exact HI].
+  destruct (t_out t) as [o|] eqn:Eo; [exact HI|].
+  assert (Hnc : is_created t = false) by (unfold is_created; now rewrite Eo).
+  cbn [mstep]. destruct (mlookup m name) as [[k pw0]|] eqn:El.
+  - destruct HI as [Hc HF].
+    destruct (bytes_eqb pw0 (t_pw t)) eqn:Ep; cbn [fst snd]; rewrite El; split.
+    + rewrite (upd_created _ ths tid t En Hnc). cbn. lia.
+    + apply (upd_Forall _ _ ths tid t En HF). right. unfold agrees. cbn.
+      apply bytes_eqb_eq in Ep. subst pw0. now rewrite !bytes_eqb_refl.
+    + rewrite (upd_created _ ths tid t En Hnc). cbn. lia.
+    + apply (upd_Forall _ _ ths tid t En HF). right. unfold agrees. cbn.
+      rewrite bytes_eqb_neq; [reflexivity|]. intros E. rewrite E, bytes_eqb_refl in Ep. discriminate.
+  - cbn [fst snd mlookup]. rewrite bytes_eqb_refl. split.
+    + rewrite (upd_created _ ths tid t En Hnc), (none_not_created ths HI). reflexivity.
+    + apply (upd_Forall _ _ ths tid t En).
+      * eapply Forall_impl; [|exact HI]. intros a Ha. now left.
+      * right. unfold agrees. cbn. now rewrite !bytes_eqb_refl.
+Qed.
+
+Lemma conc_inv_run name sched : forall st, conc_inv name st -> conc_inv name (conc_run_atomic name st sched).
+Proof.
+  unfold conc_run_atomic. induction sched as [|tid sched IH]; intros st HI; cbn [fold_left]; [exact HI|].
+  apply IH. now apply conc_inv_step.
+Qed.
+
+(** every schedule; when all callers have returned the round is as it should be *)
+Lemma conc_first_use name ths0 sched :
+  Forall (fun t => t_out t = None) ths0 ->
+  let st := conc_run_atomic name ([], ths0) sched in
+  (* at any time: whoever holds a key holds the stored one, whoever was rejected had another password *)
+  (forall t k c, In t (snd st) -> t_out t = Some (OutKey k c) -> exists pw0, mlookup (fst st) name = Some (k, pw0) /\ t_pw t = pw0) /\
+  (forall t e, In t (snd st) -> t_out t = Some (OutErr e) ->
+     e = EInvalidPassword /\ exists k pw0, mlookup (fst st) name = Some (k, pw0) /\ t_pw t <> pw0) /\
+  (snd st <> [] -> Forall (fun t => t_out t <> None) (snd st) -> first_use_ok (fst st) name (snd st) = true).
+Proof.
+  intros H0 st.
+  assert (HI : conc_inv name st) by (apply conc_inv_run; exact H0).
+  unfold conc_inv in HI. unfold first_use_ok.
+  destruct (mlookup (fst st) name) as [[k0 pw0]|] eqn:El.
+  - destruct HI as [Hc HF]. rewrite Forall_forall in HF. split; [|split].
+    + intros t k c Hin Ho. destruct (HF t Hin) as [Hn|Ha]; [congruence|].
+      unfold agrees in Ha. rewrite Ho in Ha. destruct (bytes_eqb (t_pw t) pw0) eqn:Ep; [|discriminate].
+      apply bytes_eqb_eq in Ep, Ha. subst. eauto.
+    + intros t e Hin Ho. destruct (HF t Hin) as [Hn|Ha]; [congruence|].
+      unfold agrees in Ha. rewrite Ho in Ha. destruct (bytes_eqb (t_pw t) pw0) eqn:Ep; [discriminate|].
+      destruct e; try discriminate. split; [reflexivity|]. exists k0, pw0. split; [reflexivity|].
+      intros E. rewrite E, bytes_eqb_refl in Ep. discriminate.
+    + intros _ Hd. rewrite Hc. cbn. apply forallb_forall. intros t Hin.
+      rewrite Forall_forall in Hd. destruct (HF t Hin) as [Hn|Ha]; [|exact Ha]. now elim (Hd t Hin).
+  - rewrite Forall_forall in HI. split; [|split].
+    + intros t k c Hin Ho. rewrite (HI t Hin) in Ho. discriminate.
+    + intros t e Hin Ho. rewrite (HI t Hin) in Ho. discriminate.
+    + intros Hne Hd. destruct (snd st) as [|t l]; [congruence|]. exfalso.
+      rewrite Forall_forall in Hd. apply (Hd t (or_introl eq_refl)). apply HI. now left.
+Qed.
